@@ -44,10 +44,9 @@ TECHNIQUE = {
 def main():
     checks, na = [], []
     for p in PROPS:
-        try:
-            importlib.import_module(f"jcheck.props.{p.lower()}")
-        except ModuleNotFoundError:
-            pass
+        from jcheck.cli import load_rules
+
+        load_rules(p)  # the property's own module + props/w8.py (wave-8 rules, shared rules) + the generic bundle
         if p in RULES and p not in NOT_APPLICABLE:
             info = PROPERTY_INFO.get(p, {})
             rules = RULES[p]
